@@ -468,7 +468,7 @@ func checkDiagnostics(w world.World, tracer string) error {
 
 func TestPropDiagnostics(t *testing.T) {
 	ev.Check(t, subDiagnostics, func(t *rapid.T) DiagCase {
-		w := world.Gen(t, world.Config{MaxRemotes: 3, MaxRegistry: 1, NFinders: nFinders, Diags: true, ErrorDeps: rapid.Bool().Draw(t, "errors")})
+		w := world.Gen(t, world.Config{MaxRemotes: 4, MaxRegistry: 1, NFinders: nFinders, Diags: true, ErrorDeps: rapid.Bool().Draw(t, "errors")})
 		tracer := rapid.SampledFrom([]string{"full", "full", "none", "partial:512", "partial:1535", "partial:73", "late", "early"}).Draw(t, "tracer")
 		// keep registry/relative errors out: this sub-check is about finder diagnostics
 		for pi := range w.Remotes {
